@@ -128,6 +128,7 @@ def to_model_events(trace):
 def validate_trace(drv, P, trace, flags, res0, nworkers):
     """replay through the Lean model. Returns (ok, detail)"""
     req = {'op': 'exec', 'n': P['n'], 'deps': [inf['reads'] for inf in P['info']], 'ref': [inf['value'] for inf in P['info']],
+           'sdeps': [sorted(set(inf['reads']) | set(inf['reported'])) for inf in P['info']],
            'flags': [[bool((flags or {}).get(w, (False, False, False))[0]), bool((flags or {}).get(w, (False, False, False))[1])] for w in range(nworkers)],
            'res0': [res0.get(i) for i in range(P['n'])], 'events': to_model_events(trace)}
     ans = drv.ask(req)
